@@ -105,6 +105,13 @@ def run(res: Results, idx: Index, tier: str) -> None:
                     tab = y.value.id
                 if tab is not None and any(any(p_ is lp for p_ in parents(d.stmt)) for d in du.defs.get(tab, [])):
                     return True
+                # the same through a helper: `_sig_dim(d, dim_names)` with `dim_names = {}` created inside the per-argument loop
+                if isinstance(y, ast.Call):
+                    for a_ in list(y.args) + [k_.value for k_ in y.keywords]:
+                        if isinstance(a_, ast.Name) and a_.id not in tn:
+                            for d in du.defs.get(a_.id, []):
+                                if d.value is not None and any(p_ is lp for p_ in parents(d.stmt)) and (isinstance(d.value, ast.Dict) or (isinstance(d.value, ast.Call) and (call_name(d.value) or "") in ("dict", "OrderedDict", "defaultdict"))):
+                                    return True
             return False
 
         def _unreduced(x: ast.AST) -> bool:
